@@ -42,24 +42,18 @@ Cancel(s, c, u, coll, debt, prem) ==
        IN IF s.bal["a2"][e.denom] < out THEN LFail(s)
           ELSE LOk([s EXCEPT !.dep = DRemoveAt(@, i), !.bal = LMove(@, "a2", u, e.denom, out), !.total = @ - e.amt])
 
-(* MsgWithdrawLimitBid as the code does it (deviation WithdrawUnchecked): neither the amount nor the          *)
-(* denomination of the message is checked against the deposit                                                 *)
-WithdrawCode(s, c, u, coll, debt, prem, amt, denom) ==
+(* MsgWithdrawLimitBid: only the deposited denomination, never more than the signer's own deposit; the whole     *)
+(* deposit goes through the cancel path (closing fee), a part pays the amount minus the withdrawal fee            *)
+Withdraw(s, c, u, coll, debt, prem, amt, denom) ==
   LET i == IF coll = 1 /\ debt = 2 /\ prem >= 0 THEN DIdx(s.dep, prem, u) ELSE 0 IN
   IF i = 0 \/ amt <= 0 THEN LFail(s)
   ELSE LET e == s.dep[i] IN
-    IF amt = e.amt THEN Cancel(s, c, u, coll, debt, prem)
+    IF denom # e.denom \/ amt > e.amt THEN LFail(s)
+    ELSE IF amt = e.amt THEN Cancel(s, c, u, coll, debt, prem)
     ELSE LET fee == Fee(amt, c.wfn, c.wfd)
              out == IF e.amt > 0 THEN amt - fee ELSE 0
-         IN IF denom \notin LDenoms \/ s.bal["a2"][denom] < out THEN LFail(s)
+         IN IF s.bal["a2"][denom] < out THEN LFail(s)
             ELSE LOk([s EXCEPT !.dep[i].amt = @ - amt, !.bal = LMove(@, "a2", u, denom, out), !.total = @ - amt])
-
-(* ... and as the statement demands: at most the own deposit, in the deposited denomination *)
-WithdrawFixed(s, c, u, coll, debt, prem, amt, denom) ==
-  LET i == IF coll = 1 /\ debt = 2 /\ prem >= 0 THEN DIdx(s.dep, prem, u) ELSE 0 IN
-  IF i = 0 \/ amt <= 0 THEN LFail(s)
-  ELSE IF denom # s.dep[i].denom \/ amt > s.dep[i].amt THEN LFail(s)
-  ELSE WithdrawCode(s, c, u, coll, debt, prem, amt, denom)
 
 (* =========================== C11, limit bids =========================== *)
 RECURSIVE LSum(_)
